@@ -54,6 +54,7 @@ class Outcome:
     coverage: Dict[str, Any] = field(default_factory=dict)
     assumptions: List[str] = field(default_factory=list)
     inconclusive: List[str] = field(default_factory=list)  # reasons forcing exit 3
+    unexplored: List[str] = field(default_factory=list)  # slices for which the budget decided nothing (no exit code effect)
 
 
 # --------------------------------------------------------------------------------------------
@@ -239,7 +240,11 @@ def run_symx(
             out.inconclusive.append("slice crashed in %s %s: %s" % (r["name"], r["fixed"], r["error"][-600:]))
         # vacuity guard (reachability twin): a slice none of whose paths reaches the final
         # assertion would pass anything.
-        if not r.get("error") and r["ok"] + r["fail"] == 0:
+        if not r.get("error") and r["ok"] + r["fail"] == 0 and (r["timed_out"] or r["unknown"]):
+            # not vacuity but budget: nothing was decided for this slice (oversubscribed machine); the slice is
+            # not exhausted, so the verdict degrades to "bug-hunting only" and the slice is listed
+            out.unexplored.append("%s %s paths=%d unknown=%d %s" % (r["name"], r["fixed"], r["paths"], r["unknown"], r["unknown_reasons"]))
+        elif not r.get("error") and r["ok"] + r["fail"] == 0:
             out.inconclusive.append(
                 "vacuous slice (no path reached the assertion): %s %s paths=%d ignored=%d unknown=%d %s"
                 % (r["name"], r["fixed"], r["paths"], r["ignored"], r["unknown"], r["unknown_reasons"])
@@ -371,6 +376,9 @@ def finish(out: Outcome, tier: str, seed: int, wall0: float) -> int:
     cov["violations_reported"] = [dict(key=f.key, what=f.what, replay=f.replay_path) for f in violations[:200]]
     if out.inconclusive:
         cov["inconclusive_reasons"] = out.inconclusive[:10]
+    if out.unexplored:
+        cov["slices_undecided_within_budget"] = out.unexplored[:50]
+        cov["slices_undecided_within_budget_count"] = len(out.unexplored)
     ev = {
         "property_id": pid,
         "tier": tier,
